@@ -84,6 +84,19 @@ def type_stream(rnd: random.Random, n_random: int):
             out.append(Union[tuple(rnd.sample(mixed, n))])
     out.append(Union[Tuple[()], Tuple[int], Tuple[str]])
     out.append(Union[Tuple[int], Tuple[str, str], Tuple[int, int, int]])
+    # user classes named like typing forms (Union, Generator, TypedDict, ...): plain classes to every rewriter
+    for c in fx.NAMED_LIKE_TYPING:
+        out += [c, List[c], Optional[c], Union[c, int], Dict[str, c], Tuple[c, int], Generator[c, None, None],
+                Union[c, fx.A, fx.B, fx.C, fx.E, fx.X, fx.Y], make_td({"f": c})]
+    # a class object that is falsy, wherever a rewriter keeps "the first one seen" in a variable
+    F0 = fx.Falsy
+    out += [F0, List[F0], Optional[F0], Dict[F0, int], Union[Dict[F0, int], Dict[str, str]], Union[Dict[F0, int], Dict[F0, str]],
+            Union[Dict[str, str], Dict[F0, int]], Union[List[F0], List[Any]], Union[Set[F0], Set[Any], int],
+            Union[Tuple[F0], Tuple[int], Tuple[int, int], Tuple[int, int, int], Tuple[()], Tuple[int, int, int, int],
+                  Tuple[int, int, int, int, int]],
+            Union[Tuple[F0], Tuple[F0, F0], Tuple[F0, F0, F0], Tuple[()], Tuple[F0, F0, F0, F0], Tuple[F0, F0, F0, F0, F0],
+                  Tuple[F0, F0, F0, F0, F0, F0]],
+            Union[F0, fx.A, fx.B, fx.C, fx.E, fx.X, fx.Y], Generator[F0, None, None], Generator[int, None, F0]]
     # dict unions for RewriteConfigDict
     for vs in ([int, str], [int, str, NoneType], [List[int], int], [int, Dict[str, int]]):
         out.append(Union[tuple(Dict[str, v] for v in vs)])
